@@ -24,12 +24,23 @@ every system of them, every feed:
 * `isothermal_at_reference`: where the mixture enthalpy is the latent one (the reference temperature; in particular
   where it vanishes because every reacting chemical is in its reference phase) the change is exactly
   `Σ_k dH_k·feed_k`;
-* `adiabatic_balance`: `adiabatic_reaction` leaves `Hnet_after` within ε of `Hnet_before + Q` whenever the `H`
-  setter meets its target within ε (and exactly when it is exact); `adiabatic_flows`: same flows as the isothermal call;
+* `adiabatic_sensible_heat`: after `adiabatic_reaction(stream, Q)` the mixture enthalpy has risen by `Q` minus the heat of
+  reaction `Σ_k dH_k·feed_k` (net of its latent part), within the residual ε of the `H` setter — the heat released goes
+  into sensible heat; this combines the adiabatic bookkeeping with the tracked change of `Hf`;
+* `adiabatic_balance`, `adiabatic_exact`: **definitional** — with the model's `target := (Hnet_before + Q) − Hf(n′)` the
+  balance residual *is* the setter residual (one `ring` step).  They record what the model's definition means; that the
+  code computes this target (Q counted once for a system, `Hf` taken after the reaction, `Hnet` saved before) is decided
+  per run by the correspondence of the `target` / `resid` fields and by the oracle on the real stream, not by proof;
 * `clamp_bound`: what the feasibility step may add when it zeroes negligible negatives (≤ Cmax · tol).
 
-Reading of "changes by exactly that heat": `Reaction.dH` is a 298.15 K quantity; the clause is exact at the
-reference state, and away from it the identity carries the sensible-heat difference (DESIGN.md §7 C06).
+Level, stated plainly.  The mixture enthalpy `H` is a *parameter* (free in `isothermal_identity`): what is proved is the
+bookkeeping of `Hf` and `dH` through every reaction structure.  "Changes by exactly that heat" is a statement about `H` too:
+`isothermal_at_reference` gives it under the hypothesis that `H` at the reaction temperature is linear with the latent heats
+of `dH` as coefficients.  Real thermosteam meets that hypothesis at 298.15 K for chemicals in their reference phase (`H ≡ 0`
+there; judged by the oracle on every such case) and does NOT meet it for chemicals tagged outside their reference phase
+(`H(g, 298.15 K)` is built from `Hvap(Tb)` and heat-capacity integrals, ≈ 0.5 % off `Hvap(298.15 K)` for water and > 10 % for
+supercritical gases tagged liquid): there the exact clause is not claimed, the deviation is measured and reported only.
+That `rxn(stream)` leaves T, P and phase untouched ("isothermally") is outside the model and decided by the oracle.
 -/
 set_option linter.unusedSectionVars false
 set_option linter.unusedVariables false
@@ -41,28 +52,15 @@ variable {α : Type} [Field α] [LinearOrder α] [IsStrictOrderedRing α]
 
 /-! ### 1. The latent-heat table -/
 
-/-- enthalpy level of a phase at 298.15 K relative to the solid -/
-def level (hvap hfus : α) : Phase → α
-  | .s => 0
-  | .l => hfus
-  | .g => hfus + hvap
-  | _ => 0
-
-/-- the phases the table knows -/
-def Std (p : Phase) : Prop := p = .s ∨ p = .l ∨ p = .g
-
-instance (p : Phase) : Decidable (Std p) := by unfold Std; infer_instance
-
 /-- Every one of the 3 × 3 (reference phase, reaction phase) entries is the level difference. -/
 theorem latent_table (hvap hfus : α) (ref ph : Phase) (hr : Std ref) (hp : Std ph) :
-    latent hvap hfus ref ph = .ok (level hvap hfus ph - level hvap hfus ref) := by
-  rcases hr with rfl | rfl | rfl <;> rcases hp with rfl | rfl | rfl <;> simp [latent, level]
-  all_goals ring
+    latent hvap hfus ref ph = .ok (level hvap hfus ph - level hvap hfus ref) :=
+  latent_level_of_std hvap hfus ref ph hr hp
 
 /-- Whenever the table answers (including the no-lookup case `ref = ph`), the answer is the level difference. -/
 theorem latent_ok_eq (hvap hfus : α) (ref ph : Phase) (v : α) (h : latent hvap hfus ref ph = .ok v) :
-    v = level hvap hfus ph - level hvap hfus ref := by
-  cases ref <;> cases ph <;> simp [latent, level] at h ⊢ <;> (subst h; ring)
+    v = level hvap hfus ph - level hvap hfus ref :=
+  latent_level_of_ok hvap hfus ref ph v h
 
 /-- It raises exactly for a phase change that involves a phase outside {s, l, g}. -/
 theorem latent_raises (hvap hfus : α) (ref ph : Phase) :
@@ -76,30 +74,6 @@ theorem latent_path (hvap hfus : α) (a b c : Phase) (ha : Std a) (hb : Std b) (
   rw [latent_ok_eq _ _ _ _ _ hx, latent_ok_eq _ _ _ _ _ hy, latent_ok_eq _ _ _ _ _ hz]; ring
 
 /-! ### 2. `Reaction.dH` -/
-
-/-- latent heat of species `s` relative to its chemical's reference phase (0 for an untagged reaction) -/
-def Lam (pkg : Pkg α) (phases : List Phase) (s : Nat) : α :=
-  match phases[s / pkg.N]? with
-  | none => 0
-  | some ph => level (get pkg.hvap (s % pkg.N)) (get pkg.hfus (s % pkg.N)) ph
-               - level (get pkg.hvap (s % pkg.N)) (get pkg.hfus (s % pkg.N)) (refOf pkg (s % pkg.N))
-
-/-- 1 on the molar basis, MW on the weight basis -/
-def wOf (pkg : Pkg α) (basis : Basis) (s : Nat) : α :=
-  match basis with
-  | .mol => 1
-  | .wt => get pkg.mw (s % pkg.N)
-
-theorem latS_ok_eq (pkg : Pkg α) (phases : List Phase) (nu : List α) (s : Nat) (v : α)
-    (h : latS pkg phases nu s = .ok v) (hnu : get nu s ≠ 0) : v = Lam pkg phases s := by
-  unfold latS at h
-  unfold Lam
-  cases hp : phases[s / pkg.N]? with
-  | none => rw [hp] at h; simp at h; simp [h]
-  | some ph =>
-    rw [hp] at h
-    simp only [hnu, if_false] at h
-    exact latent_ok_eq _ _ _ _ _ h
 
 /-- **dH_formula.** Whenever `Reaction.dH` returns, it is the conversion times the stoichiometry-weighted sum of the
 heats of formation plus the latent heats between reference phase and tagged phase, per unit mass on the weight basis. -/
@@ -123,26 +97,6 @@ theorem dH_formula (pkg : Pkg α) (basis : Basis) (phases : List Phase) (r : Rxn
     · simp [h0]
     · have := latS_ok_eq pkg phases r.nu s _ (hi s hs) h0
       cases basis <;> simp only [coef, wOf, this] <;> ring
-
-/-- species `s` is usable by `dH`: untouched, untagged, in its reference phase, or a change between s / l / g -/
-def ValidAt (pkg : Pkg α) (phases : List Phase) (nu : List α) (s : Nat) : Prop :=
-  get nu s = 0 ∨ ∀ ph, phases[s / pkg.N]? = some ph →
-    (refOf pkg (s % pkg.N) = ph ∨ (Std (refOf pkg (s % pkg.N)) ∧ Std ph))
-
-theorem latS_defined (pkg : Pkg α) (phases : List Phase) (nu : List α) (s : Nat) (h : ValidAt pkg phases nu s) :
-    ∃ v, latS pkg phases nu s = .ok v := by
-  unfold latS
-  cases hp : phases[s / pkg.N]? with
-  | none => exact ⟨0, rfl⟩
-  | some ph =>
-    by_cases h0 : get nu s = 0
-    · exact ⟨0, by simp [h0]⟩
-    · rcases h with h | h
-      · exact absurd h h0
-      · simp only [h0, if_false]
-        rcases h ph hp with heq | ⟨hr, hq⟩
-        · exact ⟨0, by simp [latent, heq]⟩
-        · exact ⟨_, latent_table _ _ _ _ hr hq⟩
 
 /-- `dH` returns when every species it touches is valid … -/
 theorem dH_defined (pkg : Pkg α) (basis : Basis) (phases : List Phase) (r : Rxn α)
@@ -207,24 +161,6 @@ theorem dH_basis_agree (pkg : Pkg α) (S : Nat) (lat : List α) (r : Rxn α) (mw
   field_simp
 
 /-! ### 3. Isothermal reaction -/
-
-/-- heats of formation per basis unit (`Hf`, or `Hf/MW` on the weight basis) over the species -/
-def hfB (pkg : Pkg α) (basis : Basis) (S : Nat) : List α := tab S (fun s => coef pkg basis [] s)
-
-/-- latent heats per basis unit -/
-def latB (pkg : Pkg α) (basis : Basis) (S : Nat) (lat : List α) : List α :=
-  tab S (fun s => coef pkg basis lat s - coef pkg basis [] s)
-
-/-- `dH` = formation part + latent part -/
-theorem dHcore_split (pkg : Pkg α) (basis : Basis) (S : Nat) (lat : List α) (r : Rxn α) :
-    dHcore pkg basis S lat r = lin S (hfB pkg basis S) r + lin S (latB pkg basis S lat) r := by
-  unfold dHcore lin dotN
-  rw [← mul_add, ← sumN_add]
-  congr 1
-  apply sumN_congr
-  intro s hs
-  unfold hfB latB
-  rw [get_tab _ hs, get_tab _ hs]; ring
 
 /-- **isothermal_identity** (in the reaction's basis units `m`: kmol/hr or kg/hr).  For every system of single /
 parallel / series reactions, every feed, every latent vectors, and *any* mixture-enthalpy values `H0` (before) and
@@ -350,37 +286,6 @@ theorem isothermal_single (pkg : Pkg α) (basis : Basis) (S : Nat) (r : Rxn α) 
 
 /-! ### 4. Streams: molar flows, the weight basis routed through mass flows, the feasibility step -/
 
-theorem hfStream_fromBasis (pkg : Pkg α) (basis : Basis) (S : Nat) (m : List α) :
-    hfStream pkg S (fromBasis pkg basis S m) = dotN S (hfB pkg basis S) m := by
-  unfold hfStream dotN hfB
-  apply sumN_congr
-  intro s hs
-  rw [get_tab _ hs]
-  cases basis
-  · simp only [fromBasis, get_tab _ hs, coef, get_nil]; ring
-  · simp only [fromBasis, get_tab _ hs, coef, get_nil, weight]; ring
-
-theorem hfStream_toBasis (pkg : Pkg α) (basis : Basis) (S : Nat) (n : List α)
-    (hw : basis = .wt → ∀ s, s < S → weight pkg s ≠ 0) :
-    dotN S (hfB pkg basis S) (toBasis pkg basis S n) = hfStream pkg S n := by
-  unfold hfStream dotN hfB
-  apply sumN_congr
-  intro s hs
-  rw [get_tab _ hs]
-  cases basis
-  · simp only [toBasis, get_tab _ hs, coef, get_nil]; ring
-  · have := hw rfl s hs
-    simp only [toBasis, get_tab _ hs, coef, get_nil, weight, add_zero] at this ⊢
-    field_simp
-
-theorem dotN_clamp_of_nonneg (S : Nat) (c m : List α) (h : ∀ s, s < S → ¬ get m s < 0) :
-    dotN S c (clamp S m) = dotN S c m := by
-  unfold dotN clamp
-  apply sumN_congr
-  intro s hs
-  rw [get_tab _ hs]
-  simp [h s hs]
-
 /-- The call raises `InfeasibleRegion` exactly when the negative flows sum below `-tol`. -/
 theorem infeasible_iff (tol : α) (pkg : Pkg α) (basis : Basis) (S : Nat) (bs : List (Block α)) (n : List α) :
     (∃ e, reactStream tol pkg basis S bs n = .error e)
@@ -461,20 +366,6 @@ theorem clamp_bound (S : Nat) (c m : List α) (Cmax tol : α) (hC0 : 0 ≤ Cmax)
 
 /-! ### 5. Adiabatic reaction -/
 
-/-- `adiabatic_reaction` reacts exactly like the isothermal call … -/
-theorem adiabatic_flows (tol : α) (pkg : Pkg α) (basis : Basis) (S : Nat) (bs : List (Block α)) (H0 Q : α)
-    (n n' : List α) (target : α) (h : adiabatic tol pkg basis S bs H0 Q n = .ok (n', target)) :
-    reactStream tol pkg basis S bs n = .ok n' ∧ target = (hnet pkg S H0 n + Q) - hfStream pkg S n' := by
-  unfold adiabatic at h
-  cases hr : reactStream tol pkg basis S bs n with
-  | error e => rw [hr] at h; cases h
-  | ok x =>
-    rw [hr] at h
-    simp only [Except.ok.injEq, Prod.mk.injEq] at h
-    obtain ⟨h1, h2⟩ := h
-    subst h1
-    exact ⟨rfl, h2.symm⟩
-
 /-- **adiabatic_balance.**  `H` (the mixture enthalpy as a function of flows and temperature) and `setH` (the
 temperature the `H` setter ends at, for given flows and target) are arbitrary.  If the setter meets its target within
 `ε`, then after `adiabatic_reaction(stream, Q)` the total enthalpy including formation is within `ε` of its value
@@ -501,6 +392,29 @@ theorem adiabatic_exact {τ : Type} (H : List α → τ → α) (setH : List α 
   have h0 := abs_nonpos_iff.mp this
   linarith
 
+/-- **adiabatic_sensible_heat.**  Whenever `adiabatic_reaction` returns without clamping, the mixture enthalpy after it
+exceeds the one before by the heat input minus the heat of reaction (net of the latent part already inside `dH`), within
+the setter's residual: the reaction heat turns into sensible heat.  (`m` = the feed in basis units.) -/
+theorem adiabatic_sensible_heat {τ : Type} (H : List α → τ → α) (setH : List α → α → τ)
+    (tol : α) (pkg : Pkg α) (basis : Basis) (S : Nat) (bs : List (Block α)) (T0 : τ) (Q ε : α)
+    (n n' : List α) (target : α) (lat : Rxn α → List α)
+    (h : adiabatic tol pkg basis S bs (H n T0) Q n = .ok (n', target))
+    (hset : |H n' (setH n' target) - target| ≤ ε)
+    (hpos : ∀ s, s < S → ¬ get (applySys S bs (toBasis pkg basis S n)) s < 0)
+    (hw : basis = .wt → ∀ s, s < S → weight pkg s ≠ 0) :
+    |(H n' (setH n' target) - H n T0)
+      - (Q - (heatSys (fun r => dHcore pkg basis S (lat r) r) S bs (toBasis pkg basis S n)
+              - heatSys (fun r => lin S (latB pkg basis S (lat r)) r) S bs (toBasis pkg basis S n)))| ≤ ε := by
+  obtain ⟨hr, ht⟩ := adiabatic_flows tol pkg basis S bs (H n T0) Q n n' target h
+  have hid := isothermal_identity_stream tol pkg basis S bs n n' lat (H n T0) (H n T0) hr hpos hw
+  unfold hnet at hid ht
+  have : (H n' (setH n' target) - H n T0)
+      - (Q - (heatSys (fun r => dHcore pkg basis S (lat r) r) S bs (toBasis pkg basis S n)
+              - heatSys (fun r => lin S (latB pkg basis S (lat r)) r) S bs (toBasis pkg basis S n)))
+      = H n' (setH n' target) - target := by
+    rw [ht]; linarith [hid]
+  rw [this]; exact hset
+
 /-! ### 6. Non-vacuity: a concrete package over ℚ (CH4, O2, CO2, H2O; methane combustion) -/
 
 section Examples
@@ -511,45 +425,76 @@ def pkgEx : Pkg ℚ :=
 
 /-- CH4 + 2 O2 → CO2 + 2 H2O, reactant CH4, X = 1/2 -/
 def rEx : Rxn ℚ := { nu := [-1, -2, 1, 2], r := 0, X := 1 / 2 }
+
 /-- the same, tagged on rows (g, l): CH4,g + 2 O2,g → CO2,g + 2 H2O,g -/
 def rExG : Rxn ℚ := { nu := [-1, -2, 1, 2, 0, 0, 0, 0], r := 0, X := 1 / 2 }
+
 /-- … + 2 H2O,l -/
 def rExL : Rxn ℚ := { nu := [-1, -2, 1, 0, 0, 0, 0, 2], r := 0, X := 1 / 2 }
 
 -- dH of the untagged reaction, of the gas-water and of the liquid-water tagged reactions (mol), and per gram (wt)
+
 example : (dH pkgEx .mol [] rEx).toOption = some (-445295) := by decide +kernel
+
 example : (dH pkgEx .mol [.g, .l] rExG).toOption = some (-401308) := by decide +kernel
+
 example : (dH pkgEx .mol [.g, .l] rExL).toOption = some (-445295) := by decide +kernel
+
 example : (dH pkgEx .wt [] { nu := [-1, -4, 11 / 4, 9 / 4], r := 0, X := 1 / 2 }).toOption = some (-445295 / 16) := by
   decide +kernel
+
 -- an invalid phase raises
+
 example : (dH pkgEx .mol [.L, .g] { nu := [0, 0, 0, 1, -1, 0, 0, 0], r := 4, X := 1 }).toOption = none := by decide +kernel
+
 -- the hypotheses of `dH_defined` are met by the tagged example
+
 example : ∀ s, s < nSpecies pkgEx [.g, .l] → ValidAt pkgEx [.g, .l] rExG.nu s := by
   intro s hs
   have : s < 8 := hs
   interval_cases s <;> simp [ValidAt, rExG, ReactionEnergy.get, pkgEx, refOf, Std]
+
 -- a feasible feed: 3 CH4, 10 O2, 0 CO2, 1 H2O → 1.5, 7, 1.5, 4; hypotheses of `isothermal_identity_stream` hold
+
 example : (reactStream (1 / 10 ^ 12) pkgEx .mol 4 [.single rEx] [3, 10, 0, 1]).toOption
     = some [3 / 2, 7, 3 / 2, 4] := by decide +kernel
+
 example : ∀ s, s < 4 → ¬ get (applySys 4 [.single rEx] (toBasis pkgEx .mol 4 [3, 10, 0, 1])) s < 0 := by
   decide +kernel
+
 example : ∀ s, s < 4 → weight pkgEx s ≠ 0 := by decide +kernel
+
 -- the identity on that feed with made-up enthalpy values: ΔHnet = dH·n_r + ΔH = −445295·3 + (700 − 500)
+
 example : hnet pkgEx 4 700 [3 / 2, 7, 3 / 2, 4] - hnet pkgEx 4 500 [3, 10, 0, 1] = -445295 * 3 + (700 - 500) := by
   decide +kernel
+
 -- a deficient feed raises
+
 example : (reactStream (1 / 10 ^ 12) pkgEx .mol 4 [.single rEx] [3, 1, 0, 1]).toOption = none := by decide +kernel
+
 -- series after parallel in a system: extents from the running material
+
 example : (reactStream (1 / 10 ^ 12) pkgEx .mol 4 [.par [rEx, rEx], .ser [rEx]] [4, 20, 0, 0]).toOption
     = some [0, 12, 4, 8] := by decide +kernel
+
 -- adiabatic: with the toy enthalpy H(n, T) = T and the exact setter T := target the hypotheses of `adiabatic_exact` hold
-theorem toOption_some {ε β : Type} {x : Except ε β} {v : β} (h : x.toOption = some v) : x = .ok v := by
-  cases x <;> simp [Except.toOption] at h ⊢; exact h
 
 example : ∃ n' target, adiabatic (1 / 10 ^ 12) pkgEx .mol 4 [.single rEx] (350 : ℚ) 1000 [3, 10, 0, 1] = .ok (n', target)
     ∧ (fun (_ : List ℚ) (T : ℚ) => T) n' ((fun (_ : List ℚ) (t : ℚ) => t) n' target) = target :=
   ⟨[3 / 2, 7, 3 / 2, 4], 1337235, toOption_some (by decide +kernel), rfl⟩
+
+-- `isothermal_at_reference` with a NON-trivial `h`: gas-tagged water (latent 43987 at species 3 of rows (g, l)); the
+-- enthalpy that is linear with those latent coefficients meets every hypothesis, and the conclusion is the exact clause
+example :
+    let lat : Rxn ℚ → List ℚ := fun _ => [0, 0, 0, 43987, 0, 0, 0, 0]
+    let h := latB pkgEx .mol 8 (lat rExG)
+    let m : List ℚ := [3, 10, 0, 1, 0, 0, 0, 5]
+    get h 3 = 43987 ∧
+    (∀ r ∈ sysRxns [.single rExG], ∀ s, s < 8 → get r.nu s ≠ 0 → get h s = get (latB pkgEx .mol 8 (lat r)) s) ∧
+    ((dotN 8 h (applySys 8 [.single rExG] m) + dotN 8 (hfB pkgEx .mol 8) (applySys 8 [.single rExG] m))
+       - (dotN 8 h m + dotN 8 (hfB pkgEx .mol 8) m) = -401308 * 3) := by
+  refine ⟨by decide +kernel, fun _ _ _ _ _ => rfl, by decide +kernel⟩
 
 end Examples
 
